@@ -18,7 +18,7 @@ LEVEL = "fault_enumeration"
 RULE = (
     "workloads {idle, one command in flight, four queued commands of mixed priority, reset in progress, start-up} x NCP "
     "version {4, 8, 13} (quick: 8) x every wire event of the fault-free run x {before, after} x failure kind {ERROR(0x51), "
-    "ERROR(0x80), unsolicited RSTACK(0x02 power-on), RSTACK(0x03 watchdog), NCP silent, NCP answering DATA alternately with "
+    "ERROR(0x80), ERROR(0x81, a code without a name), unsolicited RSTACK(0x02 power-on), RSTACK(0x03 watchdog), RSTACK(0x04, unnamed), NCP silent, NCP answering DATA alternately with "
     "NAK and silence, connection_lost(exc), EOF, "
     "deliberate close()} x {no line noise, a stray XOFF, XOFF+XON from the NCP before the workload}, and for the non-start-up workloads with an earlier command left unanswered (caller timed out / gave up) and with callers that abandon their requests after 2 s / 5 s, and with the application attaching only after a first announcement of the failure (the NCP then announces it again); plus Hypothesis cases with a generated injection instant and optional line faults. "
     "Non-trivial = the injection happened while at least one call was pending; distinct by plan."
@@ -31,7 +31,9 @@ ASSUMPTIONS = [
     "bound for calls in progress: injection time + 10 s command timeout + 5 x 3.2 s link timeouts = 26 s of virtual time",
 ]
 
-KINDS = ["error51", "error80", "rstack02", "rstack03", "silent", "nakflap", "lost", "eof", "close"]
+# errorXX / rstackXX: hex code; 0x81 and 0x04 are codes without a name in bellows' enum
+KINDS = ["error51", "error80", "error81", "rstack02", "rstack03", "rstack04", "silent", "nakflap", "lost", "eof", "close"]
+FRAME_KINDS = [k for k in KINDS if k.startswith(("error", "rstack"))]
 BOUND = 10 + 5 * 3.2 + 0.1
 WORKLOADS = ["idle", "one", "queue", "reset", "startup"]
 
@@ -81,24 +83,20 @@ async def scenario(loop, plan, out):
                 # the same failure once before any application is attached (nobody to tell), then the application
                 # attaches, then the NCP announces it again: that second announcement must be reported
                 inj["first_done"] = True
-                if k == "error51":
-                    stack.ash._fail(0x51)
-                elif k == "error80":
-                    stack.ash._fail(0x80)
+                if k.startswith("error"):
+                    stack.ash._fail(int(k[5:], 16))
                 else:
-                    stack.spontaneous_rstack(0x02 if k == "rstack02" else 0x03)
+                    stack.spontaneous_rstack(int(k[6:], 16))
                 loop.call_later(0.05, ezsp.add_callback, app_cb)
                 loop.call_later(0.1, inject2)
                 return
             inj["t"] = loop.time()
             inj["host_writes"] = len(stack.host_writes)
             inj["pending"] = [c[0] for c in calls if not c[1].done()]
-            if k == "error51":
-                stack.ash._fail(0x51)
-            elif k == "error80":
-                stack.ash._fail(0x80)
-            elif k in ("rstack02", "rstack03"):
-                stack.spontaneous_rstack(0x02 if k == "rstack02" else 0x03)
+            if k.startswith("error"):
+                stack.ash._fail(int(k[5:], 16))
+            elif k.startswith("rstack"):
+                stack.spontaneous_rstack(int(k[6:], 16))
             elif k == "silent":
                 stack.line.dead = True
             elif k == "nakflap":
@@ -323,7 +321,7 @@ def _worker_enum(ctx, job):
         points = [(i, pos) for i in range(n) for pos in ("before", "after")]
     for at, pos in points:
         for kind in KINDS:
-            if extra.get("late_app") and kind not in ("error51", "error80", "rstack02", "rstack03"):
+            if extra.get("late_app") and kind not in FRAME_KINDS:
                 continue
             plan = {"v": v, "workload": wl, "kind": kind, "at": at, "pos": pos}
             plan.update(extra)
@@ -340,7 +338,7 @@ fate = st.one_of(st.just(["d"]), st.just(["d"]), st.just(["d"]), st.just(["x"]),
 def plans(draw):
     plan = {"v": draw(st.sampled_from([4, 5, 7, 8, 11, 13, 14])), "workload": draw(st.sampled_from(WORKLOADS)),
             "kind": draw(st.sampled_from(KINDS)), "at_time": draw(st.sampled_from([0.0001, 0.0015, 0.0021, 0.0042, 0.011, 0.3, 1.7, 2.9]))}
-    if plan["kind"] in ("error51", "error80", "rstack02", "rstack03") and draw(st.integers(0, 3)) == 0:
+    if plan["kind"] in FRAME_KINDS and draw(st.integers(0, 3)) == 0:
         plan["late_app"] = True
     if draw(st.integers(0, 3)) == 0:
         plan["stale"] = draw(st.sampled_from(["timeout", "cancel"]))
